@@ -27,7 +27,7 @@ GRIDS = [
     {"gpts": [24, 9], "sampling": [0.15, 0.4]},
     {"gpts": [48, 144], "sampling": [0.25, 0.25]},  # extent 12 x 36 A: angular pixel 3.1 x 1.0 mrad at 100 keV
 ]
-CUTOFFS = [2.0, 10.0, 20.5, 500.0, "inf", "dist"]
+CUTOFFS = [2.0, 10.0, 20.5, 60.0, 85.0, 500.0, "inf", "dist"]  # 60 and 85 mrad lie between the axis Nyquist angle and the corner angle of some grids
 FOCAL = [0.0, 10.0, 80.0, "dist", "wdist", "gdist"]  # dist: unit weights; wdist: weights (2, 1); gdist: Gaussian weights < 1
 ANGULAR = [0.0, 0.5, 3.0, "dist", "wdist", "gdist"]
 ABERR = [
